@@ -9,7 +9,7 @@ from pbt.core import call
 
 PROP = "C16"
 TECHNIQUE = "Hypothesis-generated rate/count arrays and forecast/catalog pairs vs. independent definitions (expm1/log, math.fsum); metamorphic invariance under replacing positive counts by 1 or 7"
-RULE = ("one case = rate array (1-D or 2-D, rates 1e-9..10, 0-20% zeros) x count array (0, 1, several per bin, all-zero) for the ndarray "
+RULE = ("one case = rate array (1-D or 2-D, rates 1e-9..10, 0-20% zeros) x count array (0, 1, several per bin, all-zero; float64, int64, read-only, Fortran-ordered, strided) for the ndarray "
         "functions binary_joint_log_likelihood_ndarray / _brier_score_ndarray, and the same as forecast + catalog through binary_spatial_test, "
         "binary_conditional_likelihood_test, brier_score_test (1..3 simulations, injected numbers in bin interiors). Non-trivial = >= 1 bin "
         "with count >= 2 and >= 1 empty bin; cases with an event in a zero-rate bin are a separate counted class. distinct = canonical JSON.")
